@@ -14,8 +14,8 @@ FUNCTIONS = [('hio.base.doing', 'Doist.recur'), ('hio.base.doing', 'Doist.enter'
              ('hio.base.tyming', 'Tymist.tick'), ('hio.base.tyming', 'Tymist.tymen'),
              ('hio.base.doing', 'DoDoer.recur'), ('hio.base.doing', 'DoDoer.enter'), ('hio.base.doing', 'DoDoer.do'),
              ('hio.base.doing', 'Doer.do'), ('hio.base.doing', 'doify')]
-BOUNDS = {'quick': dict(cycles=4, max_doers=3, max_fin=3, simple_fin=2, simple_fin3=1, budget_s=150, audit_max=10),
-          'thorough': dict(cycles=5, max_doers=3, max_fin=4, simple_fin=2, simple_fin3=2, budget_s=1500, audit_max=40)}
+BOUNDS = {'quick': dict(cycles=4, cycles3=4, max_doers=3, max_fin=3, max_fin3=3, simple_fin=2, simple_fin3=1, budget_s=150, audit_max=10),
+          'thorough': dict(cycles=5, cycles3=4, max_doers=3, max_fin=4, max_fin3=3, simple_fin=2, simple_fin3=1, budget_s=1200, audit_max=40)}
 OUTSIDE = ['IEEE-754 rounding (tymes are modelled as exact reals)', 'real-time mode (C07)', 'negative yielded tocks',
            'more than `cycles` cycles / 3 leaf doers / nesting depth > 2', 'more than one doer per run with a fully symbolic tock sequence (the others yield one symbolic tock value at every step, with symbolic completion step)', 'runtime extend/remove (C06)']
 STUBS = []
@@ -40,8 +40,8 @@ def partitions(tier):
         for ks in ((('k0', 'k1')[j % 2],) if (tier == 'quick' and n3) else ('k0', 'k1') if tier == 'quick' else KINDSETS):
             for rich in sched.leaves(SHAPES[sh]):
                 n = len(sched.leaves(SHAPES[sh]))
-                ps.append(dict(name='%s-%s-rich_%s' % (sh, ks, rich), shape=sh, kinds=ks, cycles=b['cycles'],
-                               max_fin=b['max_fin'], rich=rich,
+                ps.append(dict(name='%s-%s-rich_%s' % (sh, ks, rich), shape=sh, kinds=ks, cycles=b['cycles3'] if n >= 3 else b['cycles'],
+                               max_fin=b['max_fin3'] if n >= 3 else b['max_fin'], rich=rich,
                                simple_fin=b['simple_fin3'] if n >= 3 else b['simple_fin']))
     return ps
 
